@@ -35,6 +35,7 @@ package swarm
 //@ ensures called(onDisconnected, 0) ==> called(onConnected, 0) && arg(onDisconnected, 0, 0) == conn && !has(c.pendingDisconnect, conn) && !has(c.connected, conn)
 //@ ensures !old(c.closed) && !called(onDisconnected, 0) ==> has(c.connected, conn) && !has(c.pendingDisconnect, conn)
 //@ ensures forall x *Conn :: x != conn ==> has(c.connected, x) == old(has(c.connected, x)) && has(c.pendingDisconnect, x) == old(has(c.pendingDisconnect, x))
+//@ ensures !spawned(onConnected, 0) && !spawned(onDisconnected, 0)
 //@ assert before onDisconnected#0: called(onConnected, 0)
 //@ assert before Lock#1: called(onConnected, 0)
 //@ modifies contents(c.connected), contents(c.pendingDisconnect)
@@ -48,6 +49,7 @@ package swarm
 //@ ensures called(onDisconnected, 0) ==> arg(onDisconnected, 0, 0) == conn && !has(c.connected, conn) && !has(c.pendingDisconnect, conn)
 //@ ensures !old(c.closed) && !called(onDisconnected, 0) ==> has(c.pendingDisconnect, conn) && !has(c.connected, conn)
 //@ ensures forall x *Conn :: x != conn ==> has(c.connected, x) == old(has(c.connected, x)) && has(c.pendingDisconnect, x) == old(has(c.pendingDisconnect, x))
+//@ ensures !spawned(onDisconnected, 0)
 //@ modifies contents(c.connected), contents(c.pendingDisconnect)
 
 //@ func (s *Swarm) notifyAll
